@@ -82,13 +82,12 @@ def chain3_extract_after_binary(case):
 
 
 def tree_extract_over_view(case):
-    """extraction (get_function_composition / get_function_operands + apply) of a binary ufunc one of whose operands is a view - either side"""
-    return case.get("op") == "tree" and case.get("variant") == "extract" and (case["args"]["va"] != "id" or case["args"]["vb"] != "id")
+    """extraction (get_function_composition / get_function_operands + apply) of a binary ufunc whose second operand is a view"""
+    return case.get("op") == "tree" and case.get("variant") == "extract" and case["args"]["vb"] != "id"
 
 
 def run(tier, seed):
     ck = Check("C14", tier, seed)
-    ck.preds["c14_extract_binary_after_view"] = binary_after_view
     ck.preds["c14_tree_extract_over_view"] = tree_extract_over_view
     quick = tier == "quick"
     maxd = 2 if quick else 3
